@@ -150,4 +150,12 @@ theorem wait_returns_when_all_is_finished (ops : List TQAbort.Op) (h : ∀ o ∈
 /-- non-vacuity: two adds, the abort, a late add, a late done -/
 example : TQAbort.waitReturns (TQAbort.run {} [.add 1, .add 1, .abort, .add 1, .done]) = true := by decide
 
+/-- tie to tq/transfer_queue.go: an object of the batch answer that was asked for is deleted from the request set at once, unconditionally — a second entry for the same oid is then an unknown one (no second transfer, no second Done) -/
+theorem gen_answered_object_leaves_the_request_set :
+    Gen.tqAnsweredOnce =
+      [
+       -- requested, o.Oid | 
+       [114, 101, 113, 117, 101, 115, 116, 101, 100, 44, 32, 111, 46, 79, 105, 100, 32, 124, 32]
+      ] := by decide
+
 end C06
